@@ -367,16 +367,38 @@ def conclude(prop, tier, seed, meta, results, dead, wall, nshards, write_evidenc
 
 
 def do_replay(prop, path):
+    """Re-run one recorded case.  A violation that the check attributes to a listed known finding (mechanism predicate +
+    counterfactual, exactly as in a normal run) prints KNOWN-FINDING and does not fail the replay."""
     env = child_env()
     code = (
         "import json,sys,importlib;m=importlib.import_module('vf.checks.%s');"
         "p=json.load(open(sys.argv[1]));vs=m.replay(p['case']);"
-        "print(json.dumps(vs,default=str,indent=1));sys.exit(1 if vs else 0)" % prop
+        "att=getattr(m,'attribute',None);"
+        "out=[{'kind':v.get('kind'),'detail':str(v.get('detail'))[:400],'attributed':(att(v) if att else None)} for v in vs];"
+        "print(json.dumps(out,default=str,indent=1))" % prop
     )
-    r = subprocess.run(["/venv/bin/python", "-c", code, path], cwd=VERIF, env=env, stderr=subprocess.DEVNULL)
-    if r.returncode == 1:
+    r = subprocess.run(["/venv/bin/python", "-c", code, path], cwd=VERIF, env=env, stderr=subprocess.DEVNULL, stdout=subprocess.PIPE, text=True)
+    print(r.stdout)
+    if r.returncode != 0:
+        print(f"INCONCLUSIVE property={prop} reason=replay-process-exit-{r.returncode}")
+        return 2
+    try:
+        vs = json.loads(r.stdout)
+    except Exception:
+        print(f"INCONCLUSIVE property={prop} reason=replay-output-unreadable")
+        return 2
+    known = load_known(prop)
+    bad = 0
+    for v in vs:
+        k = v.get("attributed")
+        if k and k in known:
+            print(f"KNOWN-FINDING: property={prop} key={k} {known[k]}")
+        else:
+            bad += 1
+    if bad:
         print(f"VIOLATION property={prop} replay={path}")
-    return r.returncode
+        return 1
+    return 0
 
 
 if __name__ == "__main__":
